@@ -574,6 +574,12 @@ func (c *Ctx) implFacts(ifaces map[string]types.Type) []string {
 			continue
 		}
 		for _, tt := range c.tagTypes {
+			if tt == sentinelType {
+				// constant package-level values of interface type (sentinel errors such as
+				// ErrEndOfHistory): their dynamic type is not tracked, so nothing is said about
+				// which interfaces it implements (it certainly implements the one it is declared with)
+				continue
+			}
 			impl := types.Implements(tt, iface)
 			out = append(out, fmt.Sprintf("(assert (= (%s %d) %s))", name, c.tagOf(tt), sBool(impl)))
 		}
